@@ -111,6 +111,7 @@ class Gen:
         hdr += "nobounds" if bounds is None else "bounds " + " ".join(map(str, bounds[0] + bounds[1]))
         self.lines = [hdr]
         self.present = []     # hint only: coordinates believed present
+        self.pend = None      # hint only: coordinate of the created-but-not-added cell
         self.farbase = [rng.choice([FAR - 3, -FAR + 3, FAR - 2, -(FAR - 1)]) for _ in range(d)]
 
     def data(self):
@@ -137,7 +138,7 @@ class Gen:
     def new(self, x=None, d=None):
         x = self.coord() if x is None else tuple(x)
         self.lines.append("new %s %d" % (self.cs(x), self.data() if d is None else d))
-        if x not in self.present:
+        if x not in self.present and self.pend is None:
             self.present.append(x)
 
     def pick(self):
@@ -148,7 +149,7 @@ class Gen:
     def rm(self, x=None):
         x = self.pick() if x is None else tuple(x)
         self.lines.append("rm " + self.cs(x))
-        if x in self.present:
+        if x in self.present and self.pend is None:
             self.present.remove(x)
 
     def upd(self):
@@ -171,21 +172,57 @@ class Gen:
 
     def clear(self):
         self.lines.append("clear")
-        self.present = []
+        if self.pend is None:
+            self.present = []
+
+    # ---- split protocol: createCell without add; then add, or remove + destroyCell
+    def create(self, x=None, d=None):
+        x = self.coord() if x is None else tuple(x)
+        self.lines.append("create %s %d" % (self.cs(x), self.data() if d is None else d))
+        if self.pend is None and x not in self.present:
+            self.pend = x
+
+    def addc(self):
+        self.lines.append("addc")
+        if self.pend is not None:
+            self.present.append(self.pend)
+            self.pend = None
+
+    def abandon(self):
+        self.lines.append("abandon")
+        self.pend = None
 
     def malformed(self):
         r = self.rng
-        k = r.below(7)
+        k = r.below(10)
         x = self.cs(self.coord())
         self.lines.append(["new " + x, "rm " + x + " 1", "has", "nb " + x + " x", "updall 2 " + x + " 5",
-                           "topi 0", "new " + x + " 1.5"][k])
+                           "topi 0", "new " + x + " 1.5", "create " + x, "addc 1", "abandon " + x][k])
 
 
 def gen_random(rng, nops):
     g = Gen(rng)
+    split = rng.chance(1, 2)      # half of the random mixes use the split protocol too
     for _ in range(nops):
         r = rng.below(100)
-        if r < 40:
+        if split and g.pend is not None and rng.chance(2, 3):
+            # inside the window: mostly close it; sometimes work inside it or knock on the closed doors
+            k = rng.below(10)
+            if k < 4:
+                g.addc()
+            elif k < 7:
+                g.abandon()
+            elif k < 8:
+                g.upd()
+            elif k < 9:
+                g.tops()
+            else:
+                rng.choice([g.new, g.rm, g.clear, g.create])()
+        elif split and r < 18:
+            g.create()
+        elif split and r < 20:
+            rng.choice([g.addc, g.abandon])()     # nopending
+        elif r < 40:
             g.new()
         elif r < 62:
             g.rm()
@@ -277,6 +314,77 @@ def gen_dense(rng):
     return g.lines
 
 
+def gen_split(rng):
+    """the split protocol around a centre cell: arms are created (createCell: the centre's counter moves at once and the
+    centre migrates between the queues when it crosses the interior limit), then either added or given back with
+    remove + destroyCell WITHOUT add (the counter and the queue must move back); update / updateAll / tops inside the
+    window; refused calls (new, rm, clear, create, rmtop*) inside the window; the same coordinate created again after it
+    was given back; arms removed again so that the limit is crossed in both directions by both protocols."""
+    dim = rng.choice([1, 2, 2, 3, 3, 4])
+    limit = rng.range(1, 2 * dim)
+    centre = [rng.range(-1, 1) for _ in range(dim)]
+    bounds = None
+    if rng.chance(1, 2):
+        lo = [centre[i] - rng.choice([0, 1, 1, 2]) for i in range(dim)]
+        up = [centre[i] + rng.choice([0, 1, 1, 2]) for i in range(dim)]
+        bounds = (lo, up)
+    g = Gen(rng, dim=dim, limit=limit, bounds=bounds)
+    arms = nb_coords(centre)
+    second = [y for a in arms for y in nb_coords(a) if y != tuple(centre)]
+    if rng.chance(3, 4):
+        g.new(centre)
+    else:
+        g.create(centre)
+        g.addc()
+    for rounds in range(rng.range(2, 4)):
+        order = list(arms)
+        rng.shuffle(order)
+        for a in order:
+            tries = rng.choice([1, 1, 1, 2, 3])
+            for k in range(tries):
+                g.create(a)
+                for _ in range(rng.below(3)):
+                    z = rng.below(8)
+                    if z < 2:
+                        g.upd()
+                    elif z < 3:
+                        g.updall(rng.below(3))
+                    elif z < 6:
+                        g.tops()
+                    elif z < 7:
+                        g.nb() if rng.chance(1, 2) else g.has()
+                    else:
+                        rng.choice([g.new, g.rm, g.clear, g.create])()
+                        if rng.chance(1, 3):
+                            g.lines.append(rng.choice(["rmtopi", "rmtope"]))
+                if k + 1 < tries or rng.chance(1, 3):
+                    g.abandon()
+                else:
+                    g.addc()
+                if rng.chance(1, 3):
+                    g.tops()
+            if rng.chance(1, 6):
+                g.new(rng.choice(second))
+        rng.shuffle(order)
+        for a in order[: rng.range(1, len(order))]:
+            g.rm(a)
+            if rng.chance(1, 3):
+                g.tops()
+        if rng.chance(1, 4):
+            g.rm(centre)
+            g.create(centre)
+            g.tops()
+            if rng.chance(1, 2):
+                g.abandon()
+                g.new(centre)
+            else:
+                g.addc()
+    g.lines += ["topi", "tope"]
+    if rng.chance(1, 5):
+        g.create(rng.choice(arms))      # the script ends inside the window
+    return g.lines
+
+
 def gen_bulk_rekey(rng):
     """9..40 cells that all sit in ONE queue (all border: limit 2*dim+1 without bounds; all interior: limit 1 and
     every cell on a degenerate bound), the data of many/all cells rewritten WITHOUT per-cell update (random new
@@ -361,8 +469,14 @@ def gen_exhaustive_batches(length, cfgs, per_batch=40):
                   "updall 1 %s 90" % " ".join(map(str, coords[-1]))]
         batch = [hdr]
         n = 0
+        if hdr.endswith(" #split"):
+            hdr = hdr[:-len(" #split")]
+            xs = [" ".join(map(str, x)) for x in coords]
+            alpha = ["new %s 35" % xs[0], "rm " + xs[0], "create %s 52" % xs[0], "create %s 19" % xs[1], "new %s 7" % xs[1],
+                     "rm " + xs[1], "addc", "abandon", "upd %s 0" % xs[0], "topi"]
+        batch = [hdr]
         for seq in itertools.product(alpha, repeat=length):
-            batch += list(seq) + ["topi", "tope", "clear"]
+            batch += list(seq) + ["abandon", "topi", "tope", "clear"]
             n += 1
             if n % per_batch == 0:
                 yield batch, per_batch
@@ -375,8 +489,14 @@ def gen_exhaustive_batches(length, cfgs, per_batch=40):
 def parse_dump(s, dim):
     """-> dict(cells={id:(coord,nbrs,border,data,[nb ids])}, I=[ids], E=[ids], ci, ce, sizes=[..], comps=[[ids]..])"""
     sec = s.split(" | ")
-    if len(sec) != 3:
+    if len(sec) != 4 or not sec[3].startswith("P="):
         raise ValueError("dump has %d sections" % len(sec))
+    pend = None
+    if sec[3] != "P=-":
+        pi, pxs, pnb, pb, pd = sec[3][2:].split(":")
+        if pi == "?":
+            raise ValueError("unknown pending cell pointer")
+        pend = (int(pi), tuple(map(int, pxs.split(","))), int(pnb), pb == "1", int(pd))
     t = sec[0].split()
     n = int(t[0][2:])
     cells = {}
@@ -394,14 +514,14 @@ def parse_dump(s, dim):
     kc = dict(p.split("=", 1) for p in sec[2].split())
     comps = [] if kc["comps"] == "-" else [list(map(int, c.split(","))) for c in kc["comps"].split(";")]
     return {"n": n, "cells": cells, "I": ids(kv["I"]), "E": ids(kv["E"]), "ci": int(kv["ci"]), "ce": int(kv["ce"]),
-            "sizes": ids(kc["sizes"]), "comps": comps}
+            "sizes": ids(kc["sizes"]), "comps": comps, "pending": pend}
 
 
 def well_formed(t, dim):
     """arity/type check of a protocol line (mirrors the two parsers): None if ill-formed."""
     isint = lambda s: re.fullmatch(r"[+-]?\d+", s) is not None
     op = t[0]
-    if op in ("new", "upd"):
+    if op in ("new", "upd", "create"):
         return len(t) == dim + 2 and all(isint(z) for z in t[1:])
     if op in ("rm", "has", "nb"):
         return len(t) == dim + 1 and all(isint(z) for z in t[1:])
@@ -409,7 +529,7 @@ def well_formed(t, dim):
         if len(t) < 2 or not t[1].isdigit():
             return False
         return len(t) == 2 + int(t[1]) * (dim + 1) and all(isint(z) for z in t[2:])
-    if op in ("topi", "tope", "rmtopi", "rmtope", "clear"):
+    if op in ("topi", "tope", "rmtopi", "rmtope", "clear", "addc", "abandon"):
         return len(t) == 1
     return False
 
@@ -422,9 +542,15 @@ class Spec:
         self.cells = {}
         self.next = 0
         self.evf = ev_of(hdr.ev)
+        self.pending = None      # (coord, id, data written) of the created-but-not-added cell
 
     def count(self, x):
-        return sum(1 for y in nb_coords(x) if y in self.cells) + self.h.boundary_dims(x)
+        """what the counter of a cell at x must show: present cells one step away + boundary dimensions + the
+        created-but-not-yet-added cell if it is one step away (createCell has already counted it)."""
+        n = sum(1 for y in nb_coords(x) if y in self.cells) + self.h.boundary_dims(x)
+        if self.pending is not None and self.pending[0] in nb_coords(x):
+            n += 1
+        return n
 
     def nbids(self, x):
         return sorted(self.cells[y][0] for y in nb_coords(x) if y in self.cells)
@@ -471,8 +597,36 @@ def oracle(script, out, stats=None):
         res, _, dump = o.partition(" | ")
         op = t[0]
         exp = None
-        x = tuple(map(int, t[1:1 + dim])) if op in ("new", "rm", "upd", "has", "nb") else None
-        if op == "new":
+        x = tuple(map(int, t[1:1 + dim])) if op in ("new", "rm", "upd", "has", "nb", "create") else None
+        nbh_want = None
+        if sp.pending is not None and op in ("new", "rm", "rmtopi", "rmtope", "clear", "create"):
+            exp = "busy"        # inside the create..add window
+        elif op == "create":
+            if x in sp.cells:
+                exp = "present"
+            else:
+                nbh_want = sorted(sp.cells[y][0] for y in nb_coords(x) if y in sp.cells)
+                sp.pending = (x, sp.next, int(t[-1]))
+                sp.next += 1
+                if stats is not None:
+                    stats["split:create-next-to-%d-cells" % min(len(nbh_want), 3)] = \
+                        stats.get("split:create-next-to-%d-cells" % min(len(nbh_want), 3), 0) + 1
+        elif op == "addc":
+            if sp.pending is None:
+                exp = "nopending"
+            else:
+                sp.cells[sp.pending[0]] = [sp.pending[1], sp.pending[2]]
+                sp.pending = None
+                exp = "ok"
+        elif op == "abandon":
+            if sp.pending is None:
+                exp = "nopending"
+            else:
+                sp.pending = None
+                exp = "false"    # GridB::remove: the cell is not in the grid
+                if stats is not None:
+                    stats["split:abandoned"] = stats.get("split:abandoned", 0) + 1
+        elif op == "new":
             if x in sp.cells:
                 exp = "present"
             else:
@@ -535,6 +689,34 @@ def oracle(script, out, stats=None):
             return (i, "unreadable state dump: %s" % e)
         if exp is not None and res != exp:
             return (i, "`%s` answered %r, the set of present cells says %r" % (op, res, exp))
+        if nbh_want is not None:
+            m = re.fullmatch(r"c=(\d+) nbh=(\S+)", res)
+            if not m or int(m.group(1)) != sp.pending[1]:
+                return (i, "`create` answered %r, expected cell id %d" % (res, sp.pending[1]))
+            got_nbh = [] if m.group(2) == "-" else m.group(2).split(",")
+            if "?" in got_nbh or sorted(map(int, got_nbh)) != nbh_want:
+                return (i, "createCell(%s, &nbh) handed back the neighbours %s, the present cells one step away are %s"
+                        % (x, m.group(2), nbh_want))
+        # ---- the created-but-not-added cell: absent from the table and from both queues, its own count and flag
+        P = D["pending"]
+        if (P is None) != (sp.pending is None):
+            return (i, "pending cell %s, the history says %s" % (P, sp.pending))
+        if P is not None:
+            px, pid_, pwritten = sp.pending
+            own = sum(1 for y in nb_coords(px) if y in sp.cells) + hdr.boundary_dims(px)
+            if P[0] != pid_ or P[1] != px:
+                return (i, "pending cell is %d at %s, the history says %d at %s" % (P[0], P[1], pid_, px))
+            if P[2] != own:
+                return (i, "pending cell %d at %s: neighbors counter %d, definition gives %d (%d present neighbours + %d boundary dimensions)"
+                        % (pid_, px, P[2], own, own - hdr.boundary_dims(px), hdr.boundary_dims(px)))
+            if P[3] != (own < hdr.limit):
+                return (i, "pending cell %d: border=%s with count %d and interior limit %d" % (pid_, P[3], own, hdr.limit))
+            if P[4] != pwritten:
+                return (i, "pending cell %d: data %d, the user wrote %d (no update event before add)" % (pid_, P[4], pwritten))
+            if pid_ in D["I"] or pid_ in D["E"] or pid_ in D["cells"]:
+                return (i, "the created-but-not-added cell %d is already in the table or a queue" % pid_)
+            if stats is not None:
+                stats["split:dumps-inside-the-window"] = stats.get("split:dumps-inside-the-window", 0) + 1
         # ---- cells: lookups find exactly the cells present
         want = {v[0]: x for x, v in sp.cells.items()}
         got = {cid: c[0] for cid, c in D["cells"].items()}
@@ -551,8 +733,10 @@ def oracle(script, out, stats=None):
                 if cid not in byid[m][4]:
                     return (i, "neighbour relation not symmetric: %d lists %d but not conversely" % (cid, m))
             if nbrs != cnt:
-                return (i, "cell %d at %s: neighbors counter %d, definition gives %d (%d present neighbours + %d boundary dimensions)"
-                        % (cid, y, nbrs, cnt, cnt - hdr.boundary_dims(y), hdr.boundary_dims(y)))
+                padj = 1 if (sp.pending is not None and sp.pending[0] in nb_coords(y)) else 0
+                return (i, "cell %d at %s: neighbors counter %d, definition gives %d (%d present neighbours + %d boundary dimensions%s)"
+                        % (cid, y, nbrs, cnt, cnt - hdr.boundary_dims(y) - padj, hdr.boundary_dims(y),
+                           " + 1 created-not-yet-added cell" if padj else ""))
             if border != (cnt < hdr.limit):
                 return (i, "cell %d: border=%s with count %d and interior limit %d" % (cid, border, cnt, hdr.limit))
             if d != sp.evf(written, cnt):
@@ -561,6 +745,9 @@ def oracle(script, out, stats=None):
             data[cid] = d
             if stats is not None and cid in prev_border and prev_border[cid] != border:
                 stats["flip:to-border" if border else "flip:to-interior"] += 1
+                if op in ("create", "abandon"):
+                    k = "split:queue-migration-by-%s(%s)" % (op, "to-border" if border else "to-interior")
+                    stats[k] = stats.get(k, 0) + 1
         prev_border = {cid: c[2] for cid, c in byid.items()}
         # ---- the two queues
         I, E = D["I"], D["E"]
@@ -2390,7 +2577,8 @@ def judge(ck, hbin, script, tag, pre=None, nseq=1):
         op = ln.split()[0]
         ck.count("op:" + op)
         r = o.partition(" | ")[0]
-        if op in ("new", "rm", "upd") and r in ("present", "absent"):
+        if op in ("new", "rm", "upd", "create", "addc", "abandon", "clear", "rmtopi", "rmtope") and \
+                r in ("present", "absent", "busy", "nopending"):
             ck.count("op:%s->%s" % (op, r))
         if o == "bad-op":
             ck.count("adversarial:malformed-line")
@@ -2440,7 +2628,7 @@ def judge(ck, hbin, script, tag, pre=None, nseq=1):
             for attempt in range(48):
                 sub = [c for c in others if r.chance(attempt % 4, 4)] if attempt else []
                 r.shuffle(sub)
-                cont = ["rm " + " ".join(map(str, D["cells"][c][0])) for c in sub]
+                cont = ["abandon"] + ["rm " + " ".join(map(str, D["cells"][c][0])) for c in sub]
                 cont += ["rmtop" + qn] * (len(arr) - len(sub) + 1) + ["topi", "tope"]
                 conts.append(script[:q + 2] + cont)
         else:
@@ -2451,7 +2639,7 @@ def judge(ck, hbin, script, tag, pre=None, nseq=1):
             except Exception:   # noqa
                 pass
             for attempt in range(16):
-                cont = []
+                cont = ["abandon"]      # leave the create..add window, if the disagreeing state is inside one
                 cs = list(pres)
                 r.shuffle(cs)
                 mode = attempt % 4       # 0 best-first, 1 random order, 2 mixed, 3 mixed + updates
@@ -2547,6 +2735,8 @@ EXH_CFGS = [
     ("grid dim=1 limit=default cmpe=less cmpi=less ev=none nobounds", [(0,), (1,), (2,)]),
     ("grid dim=1 limit=1 cmpe=greater cmpi=mod16 ev=lo bounds 0 2", [(0,), (1,), (2,)]),
     ("grid dim=2 limit=2 cmpe=less cmpi=greater ev=hi bounds 0 0 1 1", [(0, 0), (0, 1), (1, 0), (1, 1)]),
+    ("grid dim=1 limit=1 cmpe=less cmpi=greater ev=lo nobounds #split", [(0,), (1,)]),
+    ("grid dim=2 limit=3 cmpe=greater cmpi=less ev=hi bounds 0 0 1 1 #split", [(0, 0), (0, 1)]),
 ]
 
 
@@ -2555,6 +2745,9 @@ def run(ck):
                "dimensions 1-4, all four functors, three update events, bounds none/box/degenerate, limits 1..2*dim+1; "
                "centre-and-arms flip sequences; dense bounded boxes; exhaustive short sequences in the thorough tier). "
                "bulk-rekey: 9..40 cells in one queue, data rewritten without update, updateAll, then a drain by top/random removals. "
+               "split-protocol (round 10): createCell WITHOUT add around a centre cell, then add or remove + destroyCell of the "
+               "never-added cell, update/updateAll/tops inside the window, refused calls inside the window, scripts ending inside it; "
+               "half of the random mixes and two exhaustive alphabets use it too. "
                "A script is non-trivial if some cell flips border->interior and some cell flips interior->border in it, or if it "
                "removes the reported top from a queue of >= 9 cells; "
                "distinct by script text")
@@ -2562,7 +2755,9 @@ def run(ck):
                    "internal_, external_ and vector_; all operations go through the public API",
                    "model abstractions: association list for hash_, heap keys are copies of the cell data, stable sort of components",
                    "the C11 heap model (OmplModel.Model.Heap) is reused for the two queues"]
-    ck.assumptions += ["user protocol: createCell only for an absent coordinate and followed by add; remove only for a present cell; "
+    ck.assumptions += ["user protocol: createCell only for an absent coordinate and followed by add or by remove + destroyCell of that "
+                       "cell, one created-but-not-added cell at a time, no createCell/remove of another cell/clear inside that window; "
+                       "remove only for a present cell; "
                        "bounds and limit set on an empty grid; cell data changes only in the update event or right before update()/updateAll()",
                        "coordinates within +-2^30 (coord+-1 cannot overflow int); interior limit >= 1",
                        "the ordering functors are strict weak orders; the update event is a function of (data, neighbors)",
@@ -2626,9 +2821,11 @@ def run(ck):
         jobs.append(("flip%d" % i, gen_flip(ck.rng.fork("flip%d" % i)), "flip", 1))
     for i in range(ndense):
         jobs.append(("dense%d" % i, gen_dense(ck.rng.fork("dense%d" % i)), "dense", 1))
+    for i in range(110 if quick else 1200):
+        jobs.append(("split%d" % i, gen_split(ck.rng.fork("split%d" % i)), "split-protocol", 1))
     nexh = 0
     for L in ((1, 2) if quick else (1, 2, 3, 4)):
-        for batch, k in gen_exhaustive_batches(L, EXH_CFGS if (quick or L < 4) else EXH_CFGS[:2]):
+        for batch, k in gen_exhaustive_batches(L, EXH_CFGS if (quick or L < 4) else EXH_CFGS[:2] + EXH_CFGS[3:]):
             jobs.append(("exh%d" % L, batch, "exhaustive-len%d" % L, k))
             nexh += k
     ck.extra_cov["exhaustive_sequences"] = nexh
@@ -2873,7 +3070,16 @@ MANIFEST = {
             "1-5 and the setters AFTER first use (setInteriorCellNeighborLimit, setBounds, setDimension on the emptied grid) as coded. "
             "control::KPIECE1's own copy of the discretization (coverage by motion->steps, 1e-3 score offset, border fraction without "
             "range check) is an instance of the same model (add generalised by weight/offset; all Discretization theorems cover it) and "
-            "the real control::KPIECE1 members are driven in lock-step with the bookkeeping oracle.",
+            "the real control::KPIECE1 members are driven in lock-step with the bookkeeping oracle. "
+            "Round 10: GridB with the SPLIT protocol of the property text (createCell ... add, or remove + destroyCell of the never-added "
+            "cell; update/updateAll inside the window) is inside the model, built from the same loop bodies as the fused step "
+            "(newCell = addCellB o createCell by rfl; gridB_split_refines); for every split history: the hash table holds exactly the "
+            "coordinates of the abstract history (gridB_split_cells_exact), counters = present neighbours + boundary dimensions + the "
+            "pending cell if adjacent, border iff below the limit, each grid cell in exactly one queue and the pending cell in none "
+            "(gridB_split_inv), remove of a never-added cell answers false and restores every counter and flag "
+            "(gridB_split_abandon_false, gridB_split_create_abandon_restores), tops are best cells inside the window too "
+            "(gridB_split_tops_best), and every cell's data is the update event's output for its current counter and flag "
+            "(gridB_keys_fresh, any event).",
     "note": "Trusted: Lean kernel, the three standard axioms, the hand-written model outside the scripts the correspondence explored, "
             "the harness, the reused C11 heap model. Histories follow the user protocol of KPIECE's Discretization; tops-are-minima "
             "is checked by the oracle and the correspondence (the heap-order theorems belong to C11).",
